@@ -495,9 +495,14 @@ impl Document {
                 cursor += 1;
             } else {
                 if let Some(start) = initialism_start {
-                    let end = self.tokens[cursor - 2].span.end;
-                    let start_tok: &mut Token = &mut self.tokens[start];
-                    start_tok.span.end = end;
+                    if cursor - 2 == start + 1 {
+                        // A lone letter followed by a period ends a sentence; it is no initialism.
+                        to_remove.pop_back();
+                    } else {
+                        let end = self.tokens[cursor - 2].span.end;
+                        let start_tok: &mut Token = &mut self.tokens[start];
+                        start_tok.span.end = end;
+                    }
                 }
 
                 initialism_start = None;
@@ -507,9 +512,13 @@ impl Document {
         }
 
         // An initialism may run up to the very end of the document.
-        if let (Some(start), Some(last)) = (initialism_start, to_remove.back()) {
-            let end = self.tokens[*last].span.end;
-            self.tokens[start].span.end = end;
+        if let (Some(start), Some(last)) = (initialism_start, to_remove.back().copied()) {
+            if last == start + 1 {
+                to_remove.pop_back();
+            } else {
+                let end = self.tokens[last].span.end;
+                self.tokens[start].span.end = end;
+            }
         }
 
         self.tokens.remove_indices(to_remove);
